@@ -210,8 +210,8 @@ class SimFS:
         fault = self.faults.get(idx)
         applicable = {
             'mkdir': ('mkdir_error',),
-            'open': ('open_error',),
-            'write': ('write_error', 'short_write'),
+            'open': ('open_error', 'open_error_runtime'),
+            'write': ('write_error', 'short_write', 'write_error_value'),
             'close': ('close_error',),
         }[kind]
         if fault not in applicable:
@@ -235,6 +235,8 @@ class SimFS:
                 fs.on_op('open', str(path), fault, 0)
             if fault == 'open_error':
                 raise PermissionError(13, 'Permission denied (injected)')
+            if fault == 'open_error_runtime':
+                raise RuntimeError('cannot open file: worker thread pool is shut down (injected, not an OSError)')
             assert 'a' in mode, f'WAL must be opened for append, got mode {mode!r}'
             return SimFile(fs, str(path))
 
@@ -273,6 +275,10 @@ class SimFile:
             if fs.on_op:
                 fs.on_op('write', self.path, fault, 0)
             raise OSError(28, 'No space left on device (injected)')
+        if fault == 'write_error_value':
+            if fs.on_op:
+                fs.on_op('write', self.path, fault, 0)
+            raise ValueError('I/O operation on closed file (injected, not an OSError)')
         if fault == 'short_write':
             n = max(1, len(s) // 2)
             fs.files[self.path] = fs.files.get(self.path, '') + s[:n]
